@@ -402,7 +402,40 @@ pub fn validate_amount_decimals(amount: f64, currency: &str) -> Result<(), Parse
 /// - Decimal precision exceeds currency limit (C03)
 pub fn parse_amount_with_currency(input: &str, currency: &str) -> Result<f64, ParseError> {
     let amount = parse_amount(input)?;
-    validate_amount_decimals(amount, currency)?;
+
+    // Format 15d: at most 15 characters including the decimal separator (the trailing
+    // fraction zeros that the serialiser pads with do not count)
+    let significant = if input.contains([',', '.']) {
+        input.trim_end_matches('0').trim_end_matches([',', '.'])
+    } else {
+        input
+    };
+    if significant.len() > 15 {
+        return Err(ParseError::InvalidFormat {
+            message: format!(
+                "Amount must be at most 15 characters, found {}",
+                significant.len()
+            ),
+        });
+    }
+
+    // Count the decimals as written (trailing zeros do not count), not from the binary
+    // float: 1234567,89 is not exactly representable and used to be rejected as having
+    // too many decimals.
+    let max_decimals = get_currency_decimals(currency) as usize;
+    let decimal_places = match input.find([',', '.']) {
+        Some(pos) => input[pos + 1..].trim_end_matches('0').len(),
+        None => 0,
+    };
+    if decimal_places > max_decimals {
+        return Err(ParseError::InvalidFormat {
+            message: format!(
+                "Amount has {} decimal places but currency {} allows maximum {} (Error code: C03)",
+                decimal_places, currency, max_decimals
+            ),
+        });
+    }
+
     Ok(amount)
 }
 
